@@ -3,6 +3,7 @@ import KitProofs.Lemmas.BroadcasterProgress
 import KitProofs.Lemmas.BroadcasterOrder
 import KitProofs.Lemmas.BroadcasterAccept
 import KitProofs.Lemmas.BroadcasterWg
+import KitProofs.Lemmas.BroadcasterClose
 /-!
 C11 — events/broadcaster.  Property theorems about the LTS `Kit.Broadcaster` (`KitModel/Broadcaster.lean`).
 `Variant.fixed` models `Close` as repaired (CAS + close(closeCh) before taking the lock);
@@ -803,3 +804,132 @@ theorem hoisted_add_blocks_close :
   exact key _ _ p (by simp only [HInv]; decide) (by simp only [leak]; decide)
 
 end Kit.Broadcaster.Wg
+
+/-! ### Several concurrent `Close` calls, caller by caller (CAS winner and losers)
+
+`KitModel/BroadcasterClose.lean`: every `Close` caller is followed through its own steps — CAS (one
+winner, any number of losers), `close(closeCh)` by the winner only, pass through the lock, the
+deferred `wg.Wait()` — next to forwarders that may hold a value with the subscriber channel ready.
+The clause "nothing is delivered after Close returns" is about EVERY call: it is judged against the
+earliest return. -/
+namespace Kit.Broadcaster.Cl
+
+/-- `every_close_caller_waits`: in the code, the number of returned `Close` calls grows only by the
+step `closeReturn`, whose guard is `wg = 0` — winner or loser of the CAS, no caller returns without
+having waited for the forwarders. -/
+theorem every_close_caller_waits {s s' : State} {l : Label} (hs : step .all s l = some s')
+    (hlt : s.cRet < s'.cRet) : l = .closeReturn ∧ s.wg = 0 ∧ s'.cRet = s.cRet + 1 := by
+  cases l <;>
+    simp only [step, subLock, subLoad, subFinish, bcast, fwdTake, fwdDeliver, fwdExitClose,
+      fwdExitCloseHolding, fwdExitCtx, fwdExitCtxHolding, fwdDone, closeCall, closeCas, closeChClose,
+      closePass, closeReturn] at hs <;>
+    (repeat' split at hs) <;> (try simp at hs) <;> (try subst hs) <;> (try simp at hlt) <;>
+    simp_all
+
+/-- `no_delivery_after_any_close_returned`: in every reachable state in which at least one `Close`
+call has returned — whichever caller it was, whatever the other callers are doing — no forwarder
+exists any more (`wg = 0` = no forwarder in its loop, none holding a value, none exiting), so the
+delivery step is disabled; and over the whole run so far no delivery completed after a `Close` call
+had returned (`late = 0`). -/
+theorem no_delivery_after_any_close_returned {s : State} (hr : Reach .all s) :
+    s.late = 0 ∧
+    (0 < s.cRet → step .all s .fwdDeliver = none ∧ s.wg = 0 ∧ s.idle = 0 ∧ s.holding = 0 ∧
+      s.exiting = 0 ∧ s.closed = true) := by
+  have hi := inv_reach hr
+  refine ⟨hi.late, fun hc => ?_⟩
+  have hwg := hi.ret hc
+  have hcount := hi.wgCount
+  have hh : s.holding = 0 := by omega
+  refine ⟨by simp [step, fwdDeliver, hh], hwg, by omega, hh, by omega, ?_⟩
+  cases hcl : s.closed with
+  | true => rfl
+  | false => have := (hi.stillOpen hcl).1; omega
+
+/-- … and it stays so: a returned call stays returned (in both variants). -/
+theorem cRet_mono {w : Wait} {s s' : State} {l : Label} (hs : step w s l = some s') :
+    s.cRet ≤ s'.cRet := by
+  cases l <;>
+    simp only [step, subLock, subLoad, subFinish, bcast, fwdTake, fwdDeliver, fwdExitClose,
+      fwdExitCloseHolding, fwdExitCtx, fwdExitCtxHolding, fwdDone, closeCall, closeCas, closeChClose,
+      closePass, closeReturn] at hs <;>
+    (repeat' split at hs) <;> (try simp at hs) <;> (try subst hs) <;> simp
+
+/-- `wg_counts_forwarders_close` and the CAS bookkeeping: the counter is the number of forwarders
+started and not finished; exactly one caller wins the CAS, and it sits between the CAS and
+`close(closeCh)` exactly while `closed ∧ ¬closeCh`; no caller returns straight from a lost CAS. -/
+theorem close_cas_one_winner {s : State} (hr : Reach .all s) :
+    s.wg = s.idle + s.holding + s.exiting ∧
+    s.cWon = (if s.closed = true ∧ s.closeCh = false then 1 else 0) ∧ s.retLosers = 0 :=
+  ⟨(inv_reach hr).wgCount, (inv_reach hr).won, (inv_reach hr).losers⟩
+
+/-- Three concurrent `Close` calls while a forwarder holds a value: one Subscribe, one Broadcast,
+the forwarder takes the value, three callers, the first wins the CAS and closes `closeCh`, the two
+losers lose the CAS and pass through the lock. -/
+def threeClosersLabels : List Label :=
+  [.subLock, .subLoad, .subFinish, .bcast 1, .fwdTake, .closeCall, .closeCall, .closeCall,
+   .closeCas, .closeCas, .closeChClose, .closeCas, .closePass, .closePass]
+
+def threeClosersState : State := (runLabels .all init threeClosersLabels).getD init
+
+theorem threeClosers_run : runLabels .all init threeClosersLabels = some threeClosersState := by decide
+
+/-- Non-vacuity: in that state two losers are in `wg.Wait()`, the winner is before the lock, the
+forwarder still holds its value with `closeCh` closed — it may deliver (random `select`) and nobody
+can return; after the delivery and the forwarder's exit all three return, with `late = 0`. -/
+example : Reach .all threeClosersState ∧ threeClosersState.cWait = 2 ∧ threeClosersState.cLock = 1 ∧
+    threeClosersState.holding = 1 ∧ threeClosersState.closeCh = true ∧
+    (step .all threeClosersState .fwdDeliver).isSome = true ∧
+    step .all threeClosersState .closeReturn = none :=
+  ⟨reach_of_run _ _ _ _ Reach.init threeClosers_run, by decide, by decide, by decide, by decide,
+   by decide, by decide⟩
+
+example : ∃ s, runLabels .all init (threeClosersLabels ++
+      [.fwdDeliver, .fwdExitClose, .fwdDone, .closeReturn, .closePass, .closeReturn, .closeReturn]) = some s ∧
+    s.cRet = 3 ∧ s.delivered = 1 ∧ s.late = 0 ∧ s.wg = 0 :=
+  ⟨_, rfl, by decide, by decide, by decide, by decide⟩
+
+/-- `every_close_call_can_return`: while `Close` calls are pending, internal steps alone lead to a
+state in which one of them returns — whatever the mix of winner and losers, also with a `Subscribe`
+in the middle of its critical section and forwarders holding values. -/
+theorem every_close_call_can_return {s : State} (hr : Reach .all s) (hp : closePending s) :
+    ∃ s', IPath .all s s' ∧ (step .all s' .closeReturn).isSome = true := by
+  generalize hm : mu s = m
+  induction m using Nat.strongRecOn generalizing s with
+  | ind m ih =>
+    cases hn : step .all s .closeReturn with
+    | some s1 => exact ⟨s, Path.refl s, by simp [hn]⟩
+    | none =>
+      obtain ⟨l, s1, hl, hs, hlt⟩ := progress_step (inv_reach hr) hp hn
+      have hp1 : closePending s1 := by
+        have := pending_internal hl hs
+        simp only [closePending] at hp ⊢; omega
+      obtain ⟨s2, p, hret⟩ := ih (mu s1) (by omega) (Reach.step l hr hs) hp1 rfl
+      exact ⟨s2, Path.cons l hl hs p, hret⟩
+
+example : Reach .all threeClosersState ∧ closePending threeClosersState :=
+  ⟨reach_of_run _ _ _ _ Reach.init threeClosers_run, by simp only [closePending]; decide⟩
+
+/-- The schedule of the counter-witness: a forwarder holds a value; two `Close` calls overlap; the
+first wins the CAS and closes `closeCh`; the second loses the CAS; the forwarder's `select` picks
+the send (both `closeCh` and the subscriber channel are ready). -/
+def loserLabels : List Label :=
+  [.subLock, .subLoad, .subFinish, .bcast 1, .fwdTake, .closeCall, .closeCall,
+   .closeCas, .closeChClose, .closeCas, .fwdDeliver]
+
+def loserWitness : State := (runLabels .winnerOnly init loserLabels).getD init
+
+theorem loser_run : runLabels .winnerOnly init loserLabels = some loserWitness := by decide
+
+/-- `loser_skips_wait_witness`: with "only the first call has any work to do" (`if !CAS {return}`
+before `defer b.wg.Wait()`, `Wait.winnerOnly`) the schedule above is a run in which a `Close` call
+has returned (the loser, straight from its CAS) while the forwarder was still alive (`wg = 1`), and
+the value was delivered after that return (`late = 1`).  The same schedule in the code as it is
+delivers the value before anybody returns. -/
+theorem loser_skips_wait_witness :
+    Reach .winnerOnly loserWitness ∧ loserWitness.cRet = 1 ∧ loserWitness.retLosers = 1 ∧
+    loserWitness.wg = 1 ∧ loserWitness.delivered = 1 ∧ loserWitness.late = 1 ∧
+    (∃ s, runLabels .all init loserLabels = some s ∧ s.cRet = 0 ∧ s.delivered = 1 ∧ s.late = 0) :=
+  ⟨reach_of_run _ _ _ _ Reach.init loser_run, by decide, by decide, by decide, by decide, by decide,
+   ⟨_, rfl, by decide, by decide, by decide⟩⟩
+
+end Kit.Broadcaster.Cl
